@@ -32,6 +32,7 @@ func newExpirationManager(expiractionFunc func()) *expiryManager {
 
 // stop stops existing timers and waits for any expiration processes to complete
 func (e *expiryManager) stop() {
+	verifLock(e.mutex, "expiry.stop")
 	e.mutex.Lock()
 	defer e.mutex.Unlock()
 	if e.timer != nil {
@@ -46,6 +47,7 @@ func (e *expiryManager) _getNext() uint32 {
 
 // setNext sets the next expiration time and schedules an expiration to occur after that time.
 func (e *expiryManager) setNext(exp uint32) {
+	verifLock(e.mutex, "expiry.setnext")
 	e.mutex.Lock()
 	defer e.mutex.Unlock()
 	e._setNext(exp)
@@ -82,6 +84,7 @@ func (e *expiryManager) scheduleExpirationAtOrBefore(exp uint32) {
 	if exp == 0 {
 		return
 	}
+	verifLock(e.mutex, "expiry.schedule")
 	e.mutex.Lock()
 	defer e.mutex.Unlock()
 	e._scheduleExpirationAtOrBefore(exp)
@@ -101,6 +104,7 @@ func (e *expiryManager) _scheduleExpirationAtOrBefore(exp uint32) {
 
 // runExpiry is called when the timer expires. It calls the expirationFunc and then reschedules the timer if necessary.
 func (e *expiryManager) runExpiry() {
+	verifLock(e.mutex, "expiry.fire")
 	e.mutex.Lock()
 	defer e.mutex.Unlock()
 	e.expirationFunc()
